@@ -83,7 +83,7 @@ func main() {
 			die("%v", err)
 		}
 		replace[filepath.Join(*repo, "serf", "verif_shim_lamport.go")] = shim
-		fmt.Printf("lamport.go: %d yield points inserted\n", n)
+		fmt.Printf("lamport.go: %d uses of sync/atomic redirected to yielding wrappers\n", n)
 	default:
 		die("unknown mode %q", *mode)
 	}
@@ -418,74 +418,85 @@ func rewriteLamport(src, dst string) int {
 	if err != nil {
 		die("parse %s: %v", src, err)
 	}
+	// Every atomic operation goes through a wrapper that yields to the harness
+	// first. This is done on the *types and functions of sync/atomic* (not on
+	// statements), so it does not depend on the shape of the code around them:
+	//   atomic.Uint64 (field/var types)        -> verifAtomicUint64
+	//   atomic.LoadUint64(&x) etc. (functions) -> verifLoadUint64(&x) etc.
+	typeMap := map[string]string{"Uint64": "verifAtomicUint64"}
+	funcMap := map[string]string{
+		"LoadUint64": "verifLoadUint64", "StoreUint64": "verifStoreUint64", "AddUint64": "verifAddUint64",
+		"CompareAndSwapUint64": "verifCompareAndSwapUint64", "SwapUint64": "verifSwapUint64",
+	}
 	n := 0
-	touchesCounter := func(node ast.Node) bool {
-		found := false
-		ast.Inspect(node, func(x ast.Node) bool {
-			if c, ok := x.(*ast.CallExpr); ok {
-				if s, ok := c.Fun.(*ast.SelectorExpr); ok {
-					if in, ok := s.X.(*ast.SelectorExpr); ok && in.Sel.Name == "counter" {
-						found = true
-					}
-					// package-level atomic.X(&l.counter, …) style
-					if id, ok := s.X.(*ast.Ident); ok && id.Name == "atomic" {
-						found = true
-					}
-				}
-			}
-			return !found
-		})
-		return found
-	}
-	yield := func() ast.Stmt {
-		return &ast.ExprStmt{X: &ast.CallExpr{Fun: ast.NewIdent("verifYield")}}
-	}
-	var fix func(list []ast.Stmt) []ast.Stmt
-	fix = func(list []ast.Stmt) []ast.Stmt {
-		var out []ast.Stmt
-		for _, st := range list {
-			head := st
-			if ls, ok := st.(*ast.LabeledStmt); ok {
-				// keep the label on an empty statement, then treat the inner one
-				inner := ls.Stmt
-				ls.Stmt = &ast.EmptyStmt{Implicit: false}
-				out = append(out, ls)
-				head = inner
-			}
-			switch s := head.(type) {
-			case *ast.IfStmt:
-				// yield before evaluating a condition that touches the counter
-				probe := &ast.IfStmt{Cond: s.Cond, Init: s.Init, Body: &ast.BlockStmt{}}
-				if touchesCounter(probe) {
-					out = append(out, yield())
-					n++
-				}
-				s.Body.List = fix(s.Body.List)
-				if eb, ok := s.Else.(*ast.BlockStmt); ok {
-					eb.List = fix(eb.List)
-				}
-				out = append(out, s)
-			case *ast.ForStmt:
-				s.Body.List = fix(s.Body.List)
-				out = append(out, s)
-			case *ast.BlockStmt:
-				s.List = fix(s.List)
-				out = append(out, s)
-			default:
-				if touchesCounter(head) {
-					out = append(out, yield())
-					n++
-				}
-				out = append(out, head)
+	var bad []string
+	var rewrite func(e *ast.Expr)
+	rewrite = func(e *ast.Expr) {
+		if sel, ok := (*e).(*ast.SelectorExpr); ok && isPkg(sel.X, "atomic") {
+			if to, ok := typeMap[sel.Sel.Name]; ok {
+				*e = ast.NewIdent(to)
+				n++
+			} else if to, ok := funcMap[sel.Sel.Name]; ok {
+				*e = ast.NewIdent(to)
+				n++
+			} else {
+				bad = append(bad, fset.Position(sel.Pos()).String()+": atomic."+sel.Sel.Name)
 			}
 		}
-		return out
 	}
+	ast.Inspect(f, func(node ast.Node) bool {
+		switch x := node.(type) {
+		case *ast.Field:
+			rewrite(&x.Type)
+		case *ast.ValueSpec:
+			if x.Type != nil {
+				rewrite(&x.Type)
+			}
+		case *ast.CallExpr:
+			rewrite(&x.Fun)
+		case *ast.StarExpr:
+			rewrite(&x.X)
+		case *ast.CompositeLit:
+			if x.Type != nil {
+				rewrite(&x.Type)
+			}
+		}
+		return true
+	})
+	// anything of sync/atomic left over is something this rewriter does not know
+	ast.Inspect(f, func(node ast.Node) bool {
+		if sel, ok := node.(*ast.SelectorExpr); ok && isPkg(sel.X, "atomic") {
+			bad = append(bad, fset.Position(sel.Pos()).String()+": atomic."+sel.Sel.Name+" (unhandled position)")
+		}
+		return true
+	})
+	if len(bad) > 0 {
+		die("lamport.go uses sync/atomic in a way overlaygen does not know:\n  %s", strings.Join(bad, "\n  "))
+	}
+	// drop the now unused import
 	for _, d := range f.Decls {
-		if fd, ok := d.(*ast.FuncDecl); ok && fd.Body != nil {
-			fd.Body.List = fix(fd.Body.List)
+		gd, ok := d.(*ast.GenDecl)
+		if !ok || gd.Tok != token.IMPORT {
+			continue
 		}
+		var keep []ast.Spec
+		for _, sp := range gd.Specs {
+			if is, ok := sp.(*ast.ImportSpec); ok && strings.Trim(is.Path.Value, `"`) == "sync/atomic" {
+				continue
+			}
+			keep = append(keep, sp)
+		}
+		gd.Specs = keep
 	}
+	var decls []ast.Decl
+	for _, d := range f.Decls {
+		if gd, ok := d.(*ast.GenDecl); ok && gd.Tok == token.IMPORT && len(gd.Specs) == 0 {
+			continue
+		}
+		decls = append(decls, d)
+	}
+	f.Decls = decls
+	f.Imports = nil
 	var buf bytes.Buffer
 	if err := format.Node(&buf, fset, f); err != nil {
 		die("print: %v", err)
@@ -494,7 +505,7 @@ func rewriteLamport(src, dst string) int {
 		die("%v", err)
 	}
 	if n == 0 {
-		die("no atomic operation found in lamport.go; refusing to produce a vacuous overlay")
+		die("no use of sync/atomic found in lamport.go; refusing to produce a vacuous overlay")
 	}
 	return n
 }
@@ -502,6 +513,11 @@ func rewriteLamport(src, dst string) int {
 const lamportShim = `package serf
 
 // Added through go build -overlay by /verif/overlaygen; not part of the tree.
+// lamport.go's uses of sync/atomic are redirected to these wrappers, which
+// yield to the harness before every atomic operation and otherwise behave
+// exactly like the originals.
+
+import "sync/atomic"
 
 // VerifYieldHook, when set, is called before every atomic operation of
 // LamportClock; the harness uses it to own the interleaving.
@@ -511,5 +527,25 @@ func verifYield() {
 	if h := VerifYieldHook; h != nil {
 		h()
 	}
+}
+
+type verifAtomicUint64 struct{ v atomic.Uint64 }
+
+func (x *verifAtomicUint64) Load() uint64 { verifYield(); return x.v.Load() }
+func (x *verifAtomicUint64) Store(n uint64) { verifYield(); x.v.Store(n) }
+func (x *verifAtomicUint64) Add(d uint64) uint64 { verifYield(); return x.v.Add(d) }
+func (x *verifAtomicUint64) Swap(n uint64) uint64 { verifYield(); return x.v.Swap(n) }
+func (x *verifAtomicUint64) CompareAndSwap(o, n uint64) bool {
+	verifYield()
+	return x.v.CompareAndSwap(o, n)
+}
+
+func verifLoadUint64(p *uint64) uint64        { verifYield(); return atomic.LoadUint64(p) }
+func verifStoreUint64(p *uint64, n uint64)     { verifYield(); atomic.StoreUint64(p, n) }
+func verifAddUint64(p *uint64, d uint64) uint64 { verifYield(); return atomic.AddUint64(p, d) }
+func verifSwapUint64(p *uint64, n uint64) uint64 { verifYield(); return atomic.SwapUint64(p, n) }
+func verifCompareAndSwapUint64(p *uint64, o, n uint64) bool {
+	verifYield()
+	return atomic.CompareAndSwapUint64(p, o, n)
 }
 `
